@@ -18,10 +18,12 @@ import (
 // several initial maps; a successor is obtained by replaying the shortest path on a fresh map.
 
 type c20op struct {
-	sub bool // the write happens inside a row-scoped subquery
-	set bool
-	key string
-	val string // SQL text of the value ("1", "a" = column, "'x'")
+	alias  bool // the SETVAR item carries an alias (it still adds no column)
+	numKey bool // the key is written as a number (SETVAR(7, v) / GETVAR(7)): the register is "7"
+	sub    bool // the write happens inside a row-scoped subquery
+	set    bool
+	key    string
+	val    string // SQL text of the value ("1", "a" = column, "'x'")
 }
 
 var c20Ops = []c20op{
@@ -30,11 +32,14 @@ var c20Ops = []c20op{
 	{set: true, key: "K2", val: "'x'"},
 	{set: false, key: "k1"},
 	{set: false, key: "K2"},
-	{set: true, key: "k1", val: "GETVAR('K2')"}, // an immediate call nested in the value argument
-	{set: true, key: "k1", val: "'1'"},          // a string that prints like the number 1
-	{sub: true, key: "k1", val: "7"},            // a scalar subquery that writes: (SELECT SETVAR('k1', 7), 1 AS one FROM dual)
-	{set: true, key: "k1", val: "ARRAY(a)"},     // a value that is not comparable with == (overwriting such a value with another one)
-	{set: false, key: "k1.K2"},                  // a key that is not a single word and is never set: NULL, whatever k1 and K2 hold
+	{set: true, key: "k1", val: "GETVAR('K2')"},   // an immediate call nested in the value argument
+	{set: true, key: "k1", val: "'1'"},            // a string that prints like the number 1
+	{sub: true, key: "k1", val: "7"},              // a scalar subquery that writes: (SELECT SETVAR('k1', 7), 1 AS one FROM dual)
+	{set: true, key: "k1", val: "ARRAY(a)"},       // a value that is not comparable with == (overwriting such a value with another one)
+	{set: false, key: "k1.K2"},                    // a key that is not a single word and is never set: NULL, whatever k1 and K2 hold
+	{set: true, key: "K2", val: "a", alias: true}, // SETVAR('K2', a) AS sv
+	{set: true, key: "7", val: "a", numKey: true}, // SETVAR(7, a)
+	{set: false, key: "7", numKey: true},          // GETVAR(7)
 }
 
 type c20query struct {
@@ -86,6 +91,23 @@ func (p *c20) Init(tier string) {
 	}
 	rec(nil, 3, &p.lists)
 	rec(nil, 2, &p.short)
+	if tier != "thorough" {
+		// quick tier: length-3 lists over the first 8 operations only (the later ones - uncomparable
+		// values, odd keys, aliases - appear in every list of length <= 2)
+		var kept [][]int
+		for _, l := range p.lists {
+			late := false
+			for _, oi := range l {
+				if oi >= 8 {
+					late = true
+				}
+			}
+			if len(l) < 3 || !late {
+				kept = append(kept, l)
+			}
+		}
+		p.lists = kept
+	}
 	// simplest first
 	for _, l := range []*[][]int{&p.lists, &p.short} {
 		s := *l
@@ -162,9 +184,21 @@ func (p *c20) sql(q *c20query) string {
 		if o.sub {
 			items = append(items, fmt.Sprintf("(SELECT SETVAR('%s', %s), 1 AS one FROM dual) AS s%d", o.key, o.val, i))
 		} else if o.set {
-			items = append(items, fmt.Sprintf("SETVAR('%s', %s)", o.key, o.val))
+			key := "'" + o.key + "'"
+			if o.numKey {
+				key = o.key
+			}
+			it := fmt.Sprintf("SETVAR(%s, %s)", key, o.val)
+			if o.alias {
+				it += fmt.Sprintf(" AS sv%d", i)
+			}
+			items = append(items, it)
 		} else {
-			items = append(items, fmt.Sprintf("GETVAR('%s') AS g%d", o.key, i))
+			key := "'" + o.key + "'"
+			if o.numKey {
+				key = o.key
+			}
+			items = append(items, fmt.Sprintf("GETVAR(%s) AS g%d", key, i))
 		}
 	}
 	if q.raisePos == len(q.ops)+1 {
@@ -565,7 +599,7 @@ func (p *c20) reExec(r *core.CaseResult, i int) {
 
 func (p *c20) Meta() core.Meta {
 	return core.Meta{
-		Rule:        "explicit-state search over the shared variable map: one case per first select list (every sequence of 1..3 operations over {SETVAR(k1,1), SETVAR(k1,a), SETVAR(K2,'x'), GETVAR(k1), GETVAR(K2), SETVAR(k1,GETVAR(K2)), SETVAR(k1,'1'), (SELECT SETVAR(k1,7), 1 AS one FROM dual), SETVAR(k1,ARRAY(a)), GETVAR('k1.K2')}) run on 4 tables (0-3 rows) with/without WHERE from 3 initial maps; every distinct reached map is expanded breadth-first by every follow-up query (sequences of <= 2 operations x tables x WHERE) to depth 2 (thorough 3); a successor is the shortest path replayed on a fresh map plus one query; every step is compared with a sequential register model (rows, absence of SETVAR columns, caller's map); every first query that reads is also executed, followed by another query and a write by the caller on the same map, and then executed again as the same Query object. Failure family: every select list of <= 2 plain operations with a RAISE_WHEN(a = x, 'boom') at every position, firing on every row or on none, every operation evaluated immediately or deferred with AWAIT, on 3 tables from 3 initial maps: the query fails iff the model's evaluation reaches a firing RAISE_WHEN, the caller's map holds exactly the writes evaluated before it, and a later query reads them. Concurrent family: 3 queries whose select list runs ASYNC / SPINASYNC calls that read (GetVarFunc) or write another key of (SetVarFunc) the same store next to the query's own SETVAR / GETVAR, under every schedule within 2 (thorough 3) preemptions: a GETVAR right after a SETVAR on the evaluating goroutine returns the value just written. non-trivial = the first query ran on a non-empty table and left a non-empty map",
+		Rule:        "explicit-state search over the shared variable map: one case per first select list (every sequence of 1..3 operations (quick: length 3 only over the first 8) over {SETVAR(k1,1), SETVAR(k1,a), SETVAR(K2,'x'), GETVAR(k1), GETVAR(K2), SETVAR(k1,GETVAR(K2)), SETVAR(k1,'1'), (SELECT SETVAR(k1,7), 1 AS one FROM dual), SETVAR(k1,ARRAY(a)), GETVAR('k1.K2'), SETVAR(K2,a) AS alias, SETVAR(7,a), GETVAR(7)}) run on 4 tables (0-3 rows) with/without WHERE from 3 initial maps; every distinct reached map is expanded breadth-first by every follow-up query (sequences of <= 2 operations x tables x WHERE) to depth 2 (thorough 3); a successor is the shortest path replayed on a fresh map plus one query; every step is compared with a sequential register model (rows, absence of SETVAR columns, caller's map); every first query that reads is also executed, followed by another query and a write by the caller on the same map, and then executed again as the same Query object. Failure family: every select list of <= 2 plain operations with a RAISE_WHEN(a = x, 'boom') at every position, firing on every row or on none, every operation evaluated immediately or deferred with AWAIT, on 3 tables from 3 initial maps: the query fails iff the model's evaluation reaches a firing RAISE_WHEN, the caller's map holds exactly the writes evaluated before it, and a later query reads them. Concurrent family: 3 queries whose select list runs ASYNC / SPINASYNC calls that read (GetVarFunc) or write another key of (SetVarFunc) the same store next to the query's own SETVAR / GETVAR, under every schedule within 2 (thorough 3) preemptions: a GETVAR right after a SETVAR on the evaluating goroutine returns the value just written. non-trivial = the first query ran on a non-empty table and left a non-empty map",
 		Assumptions: []string{"evaluation order = rows in source order, select-list items left to right (the property's statement)", "values stored are numbers and strings; keys are string literals", "evaluation stops at the first failing step: a SETVAR that comes after it in evaluation order (later item, later row; for AWAIT-deferred lists the same order, at the end of the query) is not evaluated and writes nothing"},
 		Bounds:      map[string]any{"first_lists": len(p.lists), "followup_queries": len(p.queries), "depth": p.depth},
 		Exhaustive:  true,
